@@ -1,6 +1,9 @@
 """C09 - a file cut short at any byte yields only its complete records, then stops or raises the library error."""
 import datetime
 import io
+import os
+import shutil
+import tempfile
 
 from ..ref import blocking as ref
 from .c03 import content
@@ -23,6 +26,9 @@ QUICK_FILES = [
     {'fmt': '1014', 'lens': [1, 1006, 1010, 1016, 9], 'content': 'term_tail'},
     {'fmt': 'ipm-vbs', 'n': 4},
     {'fmt': 'ipm-1014', 'n': 6},
+    {'fmt': '1014', 'lens': [100, 5500, 50, 300], 'content': 'coded'},          # one large record, small ones after it
+    {'fmt': '1014', 'lens': [4096, 4100, 6000, 7], 'content': 'random'},
+    {'fmt': 'vbs', 'lens': [6000, 3, 4095], 'content': 'coded'},
 ]
 CHUNK = 150
 
@@ -58,7 +64,7 @@ def spec_files(ctx):
         rng = ctx.rng_global('files')
         n_raw, n_ipm = (44, 8) if ctx.tier == 'thorough' else (14, 3)
         pool = [1, 2, 3, 4, 5, 996, 1000, 1003, 1004, 1005, 1006, 1007, 1008, 1009, 1010, 1011, 1012, 1013, 1014, 1015,
-                1016, 2016, 2020, 2021, 2022, 2024, 2026, 2028, 2030]
+                1016, 2016, 2020, 2021, 2022, 2024, 2026, 2028, 2030, 3036, 4040, 4096, 4100, 5056, 5500, 5996, 6000, 64, 4048]
         for j in range(n_raw):
             k = rng.randint(1, 12)
             lens = [rng.choice(pool) if rng.random() < 0.7 else rng.randint(1, 400) for _ in range(k)]
@@ -106,16 +112,64 @@ def cases(ctx):
         ctx.exhaustive_subspace('every truncation offset of every generated file', total)
 
 
-def run_reader(ctx, spec, data):
+class PipeLike:
+    """
+    A non-seekable binary stream that always returns full reads (what a BufferedReader over a pipe or socket gives):
+    read() works, tell()/seek() fail the way they do on a pipe.
+    """
+
+    def __init__(self, data):
+        self._b = io.BytesIO(data)
+
+    def read(self, n=-1):
+        return self._b.read(n)
+
+    def readable(self):
+        return True
+
+    def seekable(self):
+        return False
+
+    def tell(self):
+        raise OSError(29, 'Illegal seek')
+
+    def seek(self, *a):
+        raise OSError(29, 'Illegal seek')
+
+    def fileno(self):
+        raise OSError('no file descriptor')
+
+
+def run_reader(ctx, spec, data, source='bytesio'):
     m = ctx.mciipm
     blocked = spec['fmt'].endswith('1014')
     got = []
 
+    def opened():
+        if source == 'pipe':
+            return PipeLike(data)
+        if source == 'disk':
+            if not getattr(ctx, 'tmpdir', None):
+                ctx.tmpdir = tempfile.mkdtemp(prefix='vmon-c09-')
+            path = os.path.join(ctx.tmpdir, 'cut.bin')
+            with open(path, 'wb') as f:
+                f.write(data)
+            return open(path, 'rb')
+        return io.BytesIO(data)
+
     def body():
+        f = opened()
+        try:
+            return _iterate(f)
+        finally:
+            if source == 'disk':
+                f.close()
+
+    def _iterate(f):
         if spec['fmt'].startswith('ipm'):
-            rdr = m.IpmReader(io.BytesIO(data), encoding=spec.get('enc', 'latin_1'), blocked=blocked)
+            rdr = m.IpmReader(f, encoding=spec.get('enc', 'latin_1'), blocked=blocked)
         else:
-            rdr = m.VbsReader(io.BytesIO(data), blocked=blocked)
+            rdr = m.VbsReader(f, blocked=blocked)
         for rec in rdr:
             got.append(rec)
     kind, val = ctx.call(body, budget=60000 + 60 * len(data))
@@ -136,8 +190,11 @@ def judge(ctx, case):
         if want_raw != recs[:len(want_raw)]:
             ctx.inconclusive_because('reference reader disagrees with the generator (oracle bug)')
             return
-        kind, val, got = run_reader(ctx, spec, cut)
+        # the source of the bytes must not matter: in-memory, a non-seekable stream (interrupted transfer), a disk file
+        source = 'pipe' if t % 5 == 2 else 'disk' if t % 41 == 7 else 'bytesio'
+        kind, val, got = run_reader(ctx, spec, cut, source)
         ctx.count('reader runs on truncated files')
+        ctx.count('source: ' + source)
         narrowed = {'file': spec, 'offsets': [t, t]}
         ctx.seen('endings predicted by the model', ending)
         if kind == 'steps':
@@ -187,6 +244,9 @@ def require(m):
     need = {'end', 'short_record'}
     if not need <= set(m['classes'].get('endings predicted by the model', ())):
         reasons.append('model endings not all exercised')
+    for src in ('pipe', 'disk', 'bytesio'):
+        if not m['counters'].get('source: ' + src):
+            reasons.append('source never used: ' + src)
     if not {'in_trailer', 'block_edge', 'in_payload'} <= set(m['classes'].get('cut position classes', ())):
         reasons.append('cut positions in blocked files not all exercised')
     return reasons
